@@ -242,3 +242,18 @@ def model_check(mol: Mol, targets, invariants, liveness=True, tag="mc", workers=
 def parallel(fn, items, workers=8):
     with ThreadPoolExecutor(max_workers=workers) as ex:
         return list(ex.map(fn, items))
+
+
+def closability(mol: Mol, tag="types", timeout=300):
+    """TLC on spec/GenerateTypes.tla: target-independent over-approximation. Returns (wellposed_for_all_targets, abstract error reasons, states)."""
+    with common.Scratch(tag) as d:
+        write_instance_module(d, mol, base="GenerateTypes")
+        cfg = os.path.join(d, "MC.cfg")
+        with open(cfg, "w") as f:
+            f.write("SPECIFICATION Spec\nCONSTANTS\n Elems <- MCElems\n Tok <- MCTok\nINVARIANT ClosedWhenDone\nINVARIANT ExportErrors\n")
+        r = run_tlc(d, "MC", cfg=cfg, workers=1, timeout=timeout, xmx="2g")
+    if not r.ok and r.invariant_violated() != "ClosedWhenDone":
+        raise MachineryError("TLC failed on GenerateTypes for " + mol.name + "\n" + r.tail(20))
+    errs = sorted({x["abstract_error"] for x in r.printed if "abstract_error" in x})
+    closed = r.ok
+    return (not errs), errs, r.distinct, closed
